@@ -1865,7 +1865,7 @@ impl Parser {
         let pos = self.expect(Keyword::Defer)?;
         match self.expression()? {
             ast::Expression::Call(call) => {
-                self.expect(Operator::SemiColon)?;
+                self.skipped(Operator::SemiColon)?;
                 Ok(ast::DeferStmt { pos, call })
             }
             _ => Err(self.else_error_at(pos + 2, "must be invoked function after go")),
@@ -1912,7 +1912,7 @@ impl Parser {
                 }
                 Some((_, Token::Operator(Operator::BraceLeft))) => {
                     let block = self.parse_block_stmt()?;
-                    self.expect(Operator::SemiColon)?;
+                    self.skipped(Operator::SemiColon)?;
                     Ok(ast::Statement::Block(block))
                 }
                 _ => Err(self.else_error("expect else or if statement")),
